@@ -145,28 +145,48 @@ LOCK_FUNCS = ["ldb_lock_file", "ldb_unlock_file", "ldb_flock", "ldb_open", "ldb_
               "rb_tree_insert_fixup", "rb_tree_remove_node", "rb_tree_remove_fixup"]
 
 
-def _lock(prefix, k, posix=0, tier="quick", timeout=300, known=None):
-    nm = "%s.lockfile-K%d%s" % (prefix, k, "-oslock" if posix else "")
-    return Obl(nm, "envunix/lockfile.c", real=["util/rbt.c"], include_real=["util/env.c", "util/env_unix_impl.h"],
-               kit=["vp_nondet.c", "vp_mem.c"], defs={"VP_K": k, "VP_POSIXCLOSE": posix, "VP_INTRS": 1}, real_defs=POSIX_DEFS,
-               unwind=8, unwindset={"ldb_open.0": 3, "vp_streq.0": 12, "memset.0": 40},
+def _lock(prefix, script, wit, posix=0, realrbt=0, tier="quick", timeout=300, known=None):
+    """script: list of ops, 0/1/2 = lock name n (names 0 and 1 are the same file), 10+j = unlock handle of step j"""
+    k = len(script)
+    tag = "".join(("L%d" % o) if o < 10 else ("U%d" % (o - 10)) for o in script)
+    nm = "%s.lockfile-%s%s%s" % (prefix, tag, "-oslock" if posix else "", "-rbt" if realrbt else "")
+    defs = {"VP_K": k, "VP_POSIXCLOSE": posix, "VP_INTRS": 0, "VP_REALRBT": realrbt}
+    for i in range(4):
+        defs["VP_P%d" % i] = script[i] if i < k else 0
+    for w in wit:
+        defs["VP_W_" + w] = None
+    words = ", ".join(("lock(%s)" % ("db/LOCK", "alias/LOCK = same (dev,ino)", "other/LOCK")[o]) if o < 10 else
+                      ("unlock(handle of step %d)" % (o - 10)) for o in script)
+    return Obl(nm, "envunix/lockfile.c", real=(["util/rbt.c"] if realrbt else []), include_real=["util/env.c", "util/env_unix_impl.h"],
+               kit=["vp_nondet.c", "vp_mem.c"], defs=defs, real_defs=POSIX_DEFS,
+               unwind=8, unwindset={"ldb_open.0": 2, "vp_streq.0": 12, "memset.0": 40},
                sat="cadical", timeout=timeout, tier=tier, functions=LOCK_FUNCS, known=known,
                desc=("OS-level view: a lock file held according to the in-process table is still fcntl-locked (POSIX: close of any "
                      "descriptor of the file drops the process' lock)" if posix else
-                     "real ldb_lock_file/ldb_unlock_file + real (dev,ino) rb-tree table: lock OK <=> file not held and no libc failure; "
+                     "real ldb_lock_file/ldb_unlock_file + (dev,ino) table (%s): lock OK <=> file not held and no libc failure; "
                      "second lock on a held file (any name) fails with ENOLCK; failure paths close the descriptor, return no handle, "
-                     "leave the table unchanged; unlock = F_UNLCK + close once + free + entry removed; errno of the first failing call returned"),
-               bounds="%d operations, each symbolically lock(one of 3 names, two of them the same (dev,ino), (dev,ino) symbolic 64-bit) or "
-                      "unlock(any held handle); open/fstat/fcntl/close may fail with any errno, <=1 EINTR" % k)
+                     "leave the table unchanged; unlock = F_UNLCK + close once + free + entry removed; errno of the first failing call returned"
+                     % ("real util/rbt.c" if realrbt else "array model of the set calling the real comparator by_fileid")),
+               bounds="script: %s; (dev,ino) of the two files symbolic 64-bit; every open/fstat/fcntl/close may fail with any errno "
+                      "(an unlock whose lock step failed is skipped)" % words)
 
 
 def lockfile_obls(prefix):
-    return [_lock(prefix, 2), _lock(prefix, 3), _lock(prefix, 4, tier="thorough", timeout=1800)]
+    return [
+        _lock(prefix, [0, 1], ["REFUSED"]),                       # same file through another name
+        _lock(prefix, [0, 2, 0], ["REFUSED", "BOTH"]),            # two files; third attempt on the first again
+        _lock(prefix, [0, 10, 1], ["RELOCK", "UNLOCK"]),          # unlock removes the entry
+        _lock(prefix, [0, 0, 10, 0], ["REFUSED", "RELOCK", "UNLOCK"], tier="thorough", timeout=1800),
+        _lock(prefix, [0, 1], ["REFUSED"], realrbt=1, tier="thorough", timeout=2400),
+        _lock(prefix, [0, 10, 1], ["RELOCK", "UNLOCK"], realrbt=1, tier="thorough", timeout=2400),
+        _lock(prefix, [2, 0, 11, 1], ["REFUSED", "RELOCK", "UNLOCK", "BOTH"], tier="thorough", timeout=1800),
+        _lock(prefix, [0, 2, 10, 11], ["UNLOCK", "BOTH"], tier="thorough", timeout=1800),
+    ]
 
 
 def lockfile_finding_obls(prefix):
     """fails on the unchanged tree (POSIX close semantics); not part of lockfile_obls"""
-    return [_lock(prefix, 2, posix=1, known="C20-lockfile-close-drops-posix-lock")]
+    return [_lock(prefix, [0, 1], ["REFUSED"], posix=1, known="C20-lockfile-close-drops-posix-lock")]
 
 
 def rwmisc_obls(prefix):
@@ -175,5 +195,5 @@ def rwmisc_obls(prefix):
 
 
 # development entry: ./check envunix_common
-OBLIGATIONS = wfile_obls("f") + lockfile_obls("a") + rwmisc_obls("m")
+OBLIGATIONS = wfile_obls("f") + lockfile_obls("a") + rwmisc_obls("m") + lockfile_finding_obls("z")
 META = {"level": "model_checking", "bounds": [], "outside": [], "models": ["harness/envunix/libc.h"]}
